@@ -535,6 +535,17 @@ theorem tokCase_implicit_and_star (thr : Nat) (pat rhost p e : Bytes) :
     tokCase thr .implicit [] [pat] rhost p e = .res (pathCase [pat] p e) ∧
     tokCase thr .star [] [] rhost p e = .res true := ⟨rfl, rfl⟩
 
+/-- **negation adds no dependence on the spelling**: `not {host …} {path …}` depends only on the
+    canonical host and the cleaned forms of the path -/
+theorem notCase_depends_only_on_canonical_request (thr : Nat) (hosts pats : List Bytes)
+    (h h' p e p' e' : Bytes) (hh : canonHost h = canonHost h')
+    (hp : ∀ m, cleanPathMode m (lower p) = cleanPathMode m (lower p'))
+    (he : ∀ m, cleanPathMode m (lower e) = cleanPathMode m (lower e')) :
+    notCase thr hosts pats h p e = notCase thr hosts pats h' p' e' := by
+  unfold notCase
+  rw [matchHost_depends_only_on_canonical_host thr hosts h h' hh,
+    matchPath_depends_only_on_clean_forms pats p e p' e' hp he]
+
 /-! ## MatchPathRE -/
 
 /-- the expression only ever sees the cleaned path -/
@@ -621,5 +632,8 @@ example : provisionHostI exIdna 2 [[83, 46, 99, 111, 109], [98, 195, 188, 99, 10
 example : provisionHostI exIdna 100 [[83, 46, 99, 111, 109], [98, 195, 188, 99, 104, 101, 114, 46, 101, 120, 97, 109, 112, 108, 101], [98, 46, 116, 101, 115, 116]] = .ok [[83, 46, 99, 111, 109], [120, 110, 45, 45, 98, 99, 104, 101, 114, 45, 107, 118, 97, 46, 101, 120, 97, 109, 112, 108, 101], [98, 46, 116, 101, 115, 116]] := by decide
 example : hostCaseI exIdna 2 [[83, 46, 99, 111, 109], [98, 195, 188, 99, 104, 101, 114, 46, 101, 120, 97, 109, 112, 108, 101], [98, 46, 116, 101, 115, 116]] [88, 78, 45, 45, 66, 67, 72, 69, 82, 45, 75, 86, 65, 46, 69, 120, 97, 109, 112, 108, 101, 58, 52, 52, 51] = .res true := by decide
 example : provisionHostI exIdna 2 [[83, 46, 99, 111, 109], [98, 195, 188, 99, 104, 101, 114, 46, 101, 120, 97, 109, 112, 108, 101], [115, 46, 99, 111, 109]] = .idnaErr := by decide
+
+example : notCase 2 [[69, 120, 97, 109, 112, 108, 101, 46, 99, 111, 109], [98, 46, 116, 101, 115, 116], [42, 46, 99, 46, 116, 101, 115, 116]] [[47, 97, 112, 105, 47, 42]] [120, 46, 121] [47, 111, 116, 104, 101, 114] [47, 111, 116, 104, 101, 114] = .res true := by decide
+example : notCase 2 [[69, 120, 97, 109, 112, 108, 101, 46, 99, 111, 109], [98, 46, 116, 101, 115, 116], [42, 46, 99, 46, 116, 101, 115, 116]] [[47, 97, 112, 105, 47, 42]] [120, 46, 121] [47, 65, 80, 73, 47, 47, 118, 49, 47, 46, 47, 120, 47, 46, 46, 47, 117, 115, 101, 114, 115] [47, 65, 80, 73, 47, 47, 118, 49, 47, 46, 47, 120, 47, 46, 46, 47, 117, 115, 101, 114, 115] = .res false := by decide
 
 end CaddyModel.C06
